@@ -49,7 +49,7 @@ var execChoices = []execChoice{
 	{`printf 'in  ner'`, "in  ner"},
 }
 
-var joinSegs = []string{".", "..", "", "a/b/", "dist", "/abs/root", "x", "./y//z", "../up"}
+var joinSegs = []string{".", "..", "", "a/b/", "dist", "/abs/root", "x", "./y//z", "../up", "out dir", "out", "dir", "a b", "a", "b"}
 
 func genVars(t *rapid.T) VarsCase {
 	c := VarsCase{Ambient: map[string]string{"AMB_A": "ambient-a", "BOTH_C": "ambient-c"}, DotEnv: map[string]string{"DOT_B": "dotenv-b", "BOTH_C": "dotenv-c"}}
@@ -80,6 +80,15 @@ func genVars(t *rapid.T) VarsCase {
 		}
 		c.Vars = append(c.Vars, v)
 	}
+	// pairs of builtin calls whose argument lists read the same when printed with spaces
+	switch rapid.IntRange(0, 9).Draw(t, "lookalike") {
+	case 8:
+		c.Vars = append(c.Vars, VarDef{Name: "JOne", Kind: "join", Args: []string{"out dir"}}, VarDef{Name: "JTwo", Kind: "join", Args: []string{"out", "dir"}})
+	case 9:
+		c.Vars = append(c.Vars, VarDef{Name: "EOne", Kind: "exec", Text: "echo hi there", Want: "hi there"},
+			VarDef{Name: "ETwo", Kind: "exec", Args: []string{"echo", "hi there"}, Fail: true})
+	}
+	n = len(c.Vars)
 	if n > 0 && rapid.Bool().Draw(t, "interleave") {
 		c.Split = rapid.IntRange(1, n).Draw(t, "split")
 	}
@@ -93,7 +102,16 @@ func (c VarsCase) source() (src string, cmds map[string][2]string) {
 		case "string":
 			fmt.Fprintf(&b, "%s := \"%s\"\n", v.Name, v.Text)
 		case "exec":
-			fmt.Fprintf(&b, "%s := exec(\"%s\")\n", v.Name, v.Text)
+			if len(v.Args) > 0 {
+				// exec takes exactly one argument: this definition is an error
+				var q []string
+				for _, a := range v.Args {
+					q = append(q, `"`+a+`"`)
+				}
+				fmt.Fprintf(&b, "%s := exec(%s)\n", v.Name, strings.Join(q, ", "))
+			} else {
+				fmt.Fprintf(&b, "%s := exec(\"%s\")\n", v.Name, v.Text)
+			}
 		case "join":
 			var q []string
 			for _, a := range v.Args {
